@@ -497,6 +497,9 @@ func c18Tasks(tier string) []mc.Task {
 	pending = append(pending, c18Case{Model: "k2p", Par: []float64{1}, T: T, Default: true})
 	pending = append(pending, c18Case{Model: "f84", Par: []float64{1}, Pi: []float64{0.25, 0.25, 0.25, 0.25}, T: T, Default: true})
 	for _, name := range c18ProtNames {
+		// with the model's own frequencies (nil vector) after other objects served and a vector was refused
+		start("reinit")
+		pending = append(pending, c18Case{Model: name, T: T, Reinit: true})
 		for i := range tags {
 			if ppis[i] != nil {
 				start("reinit")
